@@ -22,7 +22,7 @@ func init() {
 			"(WHO-MAY-SWITCH) headers/switches only below Commit and the init transactions; (SHADOW/SCHEDULE-SITES) a page write never targets a location the committed state references; " +
 			"(DEFERFREE) frees are journaled, never recycled inside the freeing transaction; (STICKY/RELEASE) the writer skips all I/O after the first error and always releases; " +
 			"(VALIDATE-COMPLETE/CHECKSUM-COVERAGE) a header is accepted only with magic, version and a checksum that covers every field. " +
-			"Not decided: which subset of unsynced writes survives a crash, torn header bytes, truncate arithmetic, that vfs.File.Sync makes data durable.",
+			"Not decided: which subset of unsynced writes survives a crash, torn header bytes, truncate arithmetic, that vfs.File.Sync makes data durable. Added later (DESIGN §8.7–8.9): TRUNCATE-COVERS, SYNC-COVERS-BATCH, REGION-CODEC, QUEUE-UNCONDITIONAL (every Sync/Schedule is queued, whatever the sync mode), FLAG-MONOTONE (page flags only ever set), IO-OWNER (only the background writer writes/syncs the data file), TRUNCATE-KEEPS-PREVIOUS (a commit truncates no further than the previous state needs).",
 		run: func(p *Program, rep *Report, tier string) {
 			g(rep, "SYNC-COVERS-BATCH", func() { ruleSYNCCOVERSBATCH(p, rep) })
 			g(rep, "REGION-CODEC", func() { ruleREGIONCODEC(p, rep) })
@@ -44,7 +44,7 @@ func init() {
 		explain: "Decides the structural conditions of snapshot isolation: (LOCKSET) every write to the pointers that define what a transaction sees (File.metaActive/meta/mapped/size, waLog.mapping, allocator state, FileStats) and every access by a concurrent role hold a conflicting lock pair — evaluated per role (reader, writer, Close, background writer) by abstract interpretation with the lock state; " +
 			"(SNAPSHOT-AT-BEGIN) the per-transaction snapshot is taken under the transaction lock; (READER-IS-PASSIVE) no write/sync/switch/rollback is reachable from any method of a read-only transaction; " +
 			"(LOCKS preconditions) the exclusive wait happens only under Pending, Pending only under the writer lock; (SHADOW, DEFERFREE) the writer never changes bytes a reader can reach; (ORDER) the pages a transaction freed reach the free lists only through the in-memory switch, which is placed after a successful Wait — a failed commit never makes committed pages allocatable. " +
-			"Not decided: the condition-variable implementation in lock.go, poisoned views after remap, any actual interleaving.",
+			"Not decided: the condition-variable implementation in lock.go, poisoned views after remap, any actual interleaving. Added later (§8.8–8.9): ORDER (freed pages reach the free lists only after a successful Wait), BOUND-SOURCE (read-only page bound from the committed header), STABLE-BATCH (stable sort with a strict ordering of queued writes).",
 		run: func(p *Program, rep *Report, tier string) {
 			g(rep, "LOCKSET", func() { ruleLOCKSET(p, rep) })
 			g(rep, "ORDER", func() { ruleORDER(p, rep, orderSet("ORDER", "READER-IS-PASSIVE")) })
@@ -63,7 +63,7 @@ func init() {
 		id: "C03",
 		explain: "Decides three structural necessary conditions of 'the store returns what was written' (the model equivalence itself is not statically decidable): " +
 			"(BUFFER-PRESERVE) the page write buffer is only replaced when nothing is lost; (STABLE-BATCH) queued writes to one page keep FIFO order (any sort over []writeMsg is stable); " +
-			"(WAL-RELEASE-ON-FREE) freeing a redirected page releases the overwrite page and its mapping on every success path. Not decided: partial-write arithmetic, checkpoint copy, mapping update.",
+			"(WAL-RELEASE-ON-FREE) freeing a redirected page releases the overwrite page and its mapping on every success path. Not decided: partial-write arithmetic, checkpoint copy, mapping update. Added later (§8.6–8.9): CHECKPOINT-COMPLETE, READ-LOCATION, ORDER, FLAG-MONOTONE, strict ordering function in STABLE-BATCH.",
 		run: func(p *Program, rep *Report, tier string) {
 			g(rep, "BUFFER-PRESERVE", func() { ruleBUFFERPRESERVE(p, rep) })
 			g(rep, "STABLE-BATCH", func() { ruleSTABLEBATCH(p, rep) })
@@ -78,7 +78,7 @@ func init() {
 		id: "C04",
 		explain: "Decides structural conditions of exclusive page ownership: (DEFERFREE) freed pages are only journaled; (ALLOC-RECORDED) every allocation primitive sits in a wrapper that records the pages in the transaction's journal; " +
 			"(INV-FL) every end-marker store preserves 'free regions lie below the end marker'; (PAGE-BOUNDS) Tx.getPage creates/looks up a page only under id ≥ 2, id < end marker, not freed; (WAL-RELEASE-ON-FREE). " +
-			"Not decided: arithmetic of region splitting/merging, meta-area growth sizes, exactness of the partition.",
+			"Not decided: arithmetic of region splitting/merging, meta-area growth sizes, exactness of the partition. Added later (§8.7–8.9): TOMBSTONE, SNAPSHOT-AFTER-ALLOC, FILE-END-AGREE, ALLOC-UNDOABLE, TRIM-SOURCE, REGION-CODEC, DATA-END-SKIPS-OVERFLOW (two known findings: D16).",
 		run: func(p *Program, rep *Report, tier string) {
 			g(rep, "FILE-END-AGREE", func() { ruleFILEENDAGREE(p, rep) })
 			g(rep, "DATA-END-SKIPS-OVERFLOW", func() { ruleDATAENDSKIPSOVERFLOW(p, rep) })
@@ -98,7 +98,7 @@ func init() {
 		id: "C05",
 		explain: "Decides structural necessary conditions of event framing only (delivery equality itself is numeric and not decided): (EVENT-SIZE-SOURCE) the size header of an event is computed from the per-event byte counter and every payload appended to the buffer is counted in it; (EVENT-BOUNDARY) once an event is published in the buffer the per-event state (byte counter, event id, counters) advances on every path, also when the implicit flush fails; " +
 			"(TAIL-OFFSET) the tail offset a flush persists is the recorded start of the unfinished event, so a reopened writer appends directly behind the last complete event; (POSITION-COHERENT) the reader derives its position from one page; (READ-CONSUME) the reader takes what the cursor consumed off the remaining event size before the next step. " +
-			"Not decided: page spill arithmetic of buffer/cursor, header/offset values being the right numbers, chunking-independence as a whole.",
+			"Not decided: page spill arithmetic of buffer/cursor, header/offset values being the right numbers, chunking-independence as a whole. Added in §8.9: PER-EVENT-STATE (the state of the unfinished event survives a flush), PAGES-COUNT (a partial flush range is never returned with the total page count; D17 fixed).",
 		run: func(p *Program, rep *Report, tier string) {
 			g(rep, "EVENT-SIZE-SOURCE", func() { ruleEVENTSIZESOURCE(p, rep) })
 			g(rep, "PER-EVENT-STATE", func() { rulePEREVENTSTATE(p, rep) })
@@ -113,7 +113,7 @@ func init() {
 		id: "C06",
 		explain: "Decides the transaction protocol of the queue: (PQTX) a flush and an ACK are each exactly one write transaction, file mutations only inside it, in-memory advance and callbacks only after Commit()==nil; " +
 			"(KEEPWRITEPAGE) the last page is never put on the ACK free plan; (TX-PAIRING) every transaction begun by pq is finished on every exit; (ERRDISC) no txfile error is dropped in pq; " +
-			"and on the txfile side the commit protocol (ORDER/SLOT). Not decided: that positions/links written are the right numbers, recovery of reader/writer state, crash subsets.",
+			"and on the txfile side the commit protocol (ORDER/SLOT). Not decided: that positions/links written are the right numbers, recovery of reader/writer state, crash subsets. Added later (§8.6–8.9): POSITION-COHERENT, TAIL-OFFSET, NESTED-TX, WAL-RELEASE-ON-FREE, PAGE-HEADER-AGREE (page loader restores what the header persists), READ-START-AGREE.",
 		run: func(p *Program, rep *Report, tier string) {
 			g(rep, "PQTX", func() { rulePQTX(p, rep) })
 			g(rep, "KEEPWRITEPAGE", func() { ruleKEEPWRITEPAGE(p, rep) })
@@ -131,7 +131,7 @@ func init() {
 		id: "C07",
 		explain: "Decides structural conditions of 'an aborted transaction leaves no trace': (ROLLBACK-ON-EVERY-FAILURE) every Commit failing before the commit point and every Rollback/Close of a write transaction runs the allocator rollback exactly once, a successful Commit never; " +
 			"(COMMITPOINT) no rollback and no error return after the in-memory switch; (UNDO-JOURNAL) every pre-commit mutation of allocator state has a journal entry that Rollback reads; (INV-FL) the rollback's end-marker store trims the freelist. " +
-			"Not decided: that the undo is numerically exact, truncate sizing.",
+			"Not decided: that the undo is numerically exact, truncate sizing. Added later (§8.6–8.9): PRECOMMIT-NO-ALIAS, DEFERFREE, TRUNCATE-COVERS, every-entry undo, ALLOC-UNDOABLE, TRIM-SOURCE.",
 		run: func(p *Program, rep *Report, tier string) {
 			g(rep, "ORDER", func() { ruleORDER(p, rep, orderSet("ROLLBACK-ON-EVERY-FAILURE", "COMMITPOINT")) })
 			g(rep, "UNDO-JOURNAL", func() { ruleUNDOJOURNAL(p, rep) })
@@ -148,7 +148,7 @@ func init() {
 		explain: "Decides the error discipline around I/O: (ERRDISC) no error returned by a repository function or a vfs.File/Delegate method is dropped (21 allow-listed call edges, one reason each); " +
 			"(COMMIT-ERROR-PATH) every exit of Commit/Open has waited for the writer and a failed Wait is followed by an error-resetting sync; (COMMITPOINT) no error return after the switch; " +
 			"(LIFECYCLE) building the error of a failed or repeated operation never dereferences state cleared by close(); (STICKY/RELEASE) no I/O after the first failure, no lost Release (the only way Wait can hang). " +
-			"Not decided: 'keeps seeing the last committed state' and 'commits succeed again' as behaviours; short-write arithmetic.",
+			"Not decided: 'keeps seeing the last committed state' and 'commits succeed again' as behaviours; short-write arithmetic. Added later (§8.7–8.9): ORDER incl. STICKY-BARRIER, LOCKS for Commit/Rollback/Close, QUEUE-UNCONDITIONAL, IO-OWNER.",
 		run: func(p *Program, rep *Report, tier string) {
 			g(rep, "ERRDISC", func() { ruleERRDISC(p, rep, "", false) })
 			g(rep, "ERRDISC", func() { ruleERRDISC(p, rep, "pq", true) })
@@ -179,7 +179,7 @@ func init() {
 	register(&propertyDef{
 		id: "C10",
 		explain: "Decides the agreement clauses of close/reopen: (PERSIST-AGREE) every persisted header field written on a commit/flush/ACK path (file header, queue header, event page header) is read back on the open/read path; " +
-			"(RELOAD-AGREE) every in-memory field assigned by the commit-time switch is also assigned by the open-time loaders. Not decided: encode/decode round trip, page-count prediction, 7-byte ids.",
+			"(RELOAD-AGREE) every in-memory field assigned by the commit-time switch is also assigned by the open-time loaders. Not decided: encode/decode round trip, page-count prediction, 7-byte ids. Added later (§8.6–8.9): MMAP-COVERS-FILE, REGION-CODEC, PERSIST-MEMORY-AGREE, RELOAD-EVERY-PATH, PAGE-HEADER-AGREE.",
 		run: func(p *Program, rep *Report, tier string) {
 			g(rep, "REGION-CODEC", func() { ruleREGIONCODEC(p, rep) })
 			g(rep, "PERSIST-AGREE", func() { rulePERSISTAGREE(p, rep) })
@@ -193,7 +193,7 @@ func init() {
 	register(&propertyDef{
 		id: "C11",
 		explain: "Decides the size-limit clause: (CAPACITY) every end-marker advance is dominated by a capacity test derived from maxPages/Avail() or by the overflow flag; (OVERFLOW-GATE) that flag is only ever the transaction's EnableOverflowArea option or false; " +
-			"plus (UNDO-JOURNAL, INV-FL) no page vanishes on rollback. Not decided: the conservation equation, FileStats arithmetic, truncation.",
+			"plus (UNDO-JOURNAL, INV-FL) no page vanishes on rollback. Not decided: the conservation equation, FileStats arithmetic, truncation. Added later (§8.7–8.9): DEFERFREE, SNAPSHOT-AFTER-ALLOC, ALLOC-UNDOABLE, FILE-END-AGREE.",
 		run: func(p *Program, rep *Report, tier string) {
 			g(rep, "SNAPSHOT-AFTER-ALLOC", func() { ruleSNAPSHOTAFTERALLOC(p, rep) })
 			g(rep, "FILE-END-AGREE", func() { ruleFILEENDAGREE(p, rep) })
@@ -207,7 +207,7 @@ func init() {
 	register(&propertyDef{
 		id: "C12",
 		explain: "Decides structural conditions of space reclamation and 'full without loss': (KEEPWRITEPAGE, FREE-ALL-CONSUMED) the ACK frees exactly its plan inside the cleanup transaction and never the write page; " +
-			"(FAILED-FLUSH-UNASSIGNS) a failed flush un-assigns page ids and keeps the buffer; (CLEANUP-MAY-OVERFLOW) the cleanup transaction may use the overflow area, the writer's may not; (ERRDISC) flush errors reach the caller. Not decided: the space bound, order after retry.",
+			"(FAILED-FLUSH-UNASSIGNS) a failed flush un-assigns page ids and keeps the buffer; (CLEANUP-MAY-OVERFLOW) the cleanup transaction may use the overflow area, the writer's may not; (ERRDISC) flush errors reach the caller. Not decided: the space bound, order after retry. Added later (§8.7–8.8): ACK-SCAN-FROM-HEAD, EVENT-BOUNDARY.",
 		run: func(p *Program, rep *Report, tier string) {
 			g(rep, "KEEPWRITEPAGE", func() { ruleKEEPWRITEPAGE(p, rep) })
 			g(rep, "FREE-ALL-CONSUMED", func() { ruleFREEALLCONSUMED(p, rep) })
@@ -221,7 +221,7 @@ func init() {
 	register(&propertyDef{
 		id: "C13",
 		explain: "Decides structural conditions of concurrent producer/consumer: (TX-PAIRING) no queue function leaks a transaction (= a file lock the other role waits for); (KEEPWRITEPAGE) the page the writer appends to is never in an ACK plan; " +
-			"(CONFINEMENT) writer, reader and ACK roles share no mutable memory; and the file-level lock rules underneath (LOCKS for Begin/Commit/Close). Not decided: FIFO equality, validity of an ACK plan across its two transactions in general.",
+			"(CONFINEMENT) writer, reader and ACK roles share no mutable memory; and the file-level lock rules underneath (LOCKS for Begin/Commit/Close). Not decided: FIFO equality, validity of an ACK plan across its two transactions in general. Added later (§8.6–8.9): NESTED-TX, LOCKSET, SNAPSHOT-AT-BEGIN, EVENT-BOUNDARY, DELEGATE-ROLES.",
 		run: func(p *Program, rep *Report, tier string) {
 			g(rep, "LOCKSET", func() { ruleLOCKSET(p, rep) })
 			g(rep, "TX-PAIRING", func() { ruleTXPAIRING(p, rep) })
@@ -239,7 +239,7 @@ func init() {
 	register(&propertyDef{
 		id: "C14",
 		explain: "Decides the protocol of the open-time max-size update: (LOCKS at root Open) every in-process lock is idle at every exit, the background writer and the mapping are released on every error exit (a failed resize closes the File); " +
-			"(ORDER/SLOT/FINALIZE at root Open) the init transactions write a finalized header to the inactive slot, sync and wait before File.metaActive / allocator limits are switched; (ERRDISC) the only dropped result is the documented may-fail release transaction. Not decided: which pages become allocatable, extent arithmetic.",
+			"(ORDER/SLOT/FINALIZE at root Open) the init transactions write a finalized header to the inactive slot, sync and wait before File.metaActive / allocator limits are switched; (ERRDISC) the only dropped result is the documented may-fail release transaction. Not decided: which pages become allocatable, extent arithmetic. Added later (§8.7–8.9): PRECOMMIT-NO-ALIAS, TRUNCATE-COVERS, MAXSIZE-DECISION, MMAP-COVERS-FILE, DATA-END-SKIPS-OVERFLOW (two known findings: D16).",
 		run: func(p *Program, rep *Report, tier string) {
 			g(rep, "LOCKS", func() { ruleLOCKS(p, rep, func(r lockRoot) bool { return r.name == "Open" || strings.HasPrefix(r.name, "File.Begin") }, true) })
 			g(rep, "ORDER", func() { ruleORDER(p, rep, orderSet("ORDER", "SLOT", "FINALIZE", "COMMIT-ERROR-PATH")) })
@@ -254,7 +254,7 @@ func init() {
 	register(&propertyDef{
 		id: "C15",
 		explain: "Decides the method × lifecycle-state matrix abstractly: for every exported method of Tx, Page, Writer, Reader, Queue and every scenario that makes the call invalid (transaction finished, read-only, page freed/flushed/dirty/new-without-buffer, writer/reader/queue closed, reader without transaction) — " +
-			"no definite nil dereference, every return carries a non-nil error, no lock/writer/shared-state effect; plus (PAGE-BOUNDS) out-of-range and freed pages are rejected before any page object is created, (SETBYTES-BOUND) oversize contents are rejected before the buffer is touched. Not decided: ACK-too-many arithmetic, error kinds through wrapping.",
+			"no definite nil dereference, every return carries a non-nil error, no lock/writer/shared-state effect; plus (PAGE-BOUNDS) out-of-range and freed pages are rejected before any page object is created, (SETBYTES-BOUND) oversize contents are rejected before the buffer is touched. Not decided: ACK-too-many arithmetic, error kinds through wrapping. Added later (§8.7–8.8): TOMBSTONE, ACK-BOUND, the documented error KIND per matrix cell, BOUND-SOURCE, FLAG-MONOTONE.",
 		run: func(p *Program, rep *Report, tier string) {
 			g(rep, "ACK-BOUND", func() { ruleACKBOUND(p, rep) })
 			g(rep, "LIFECYCLE", func() { ruleLIFECYCLE(p, rep, "") })
@@ -268,7 +268,7 @@ func init() {
 	register(&propertyDef{
 		id: "C16",
 		explain: "Decides the header-selection protocol: (VALIDATE) in readValidMeta no field of a header read from disk is used before its Validate() returned nil and the header returned is a validated one (typestate by abstract interpretation, validity follows struct copies); " +
-			"(VALIDATE-COMPLETE) Validate returns nil only after magic, version and checksum equality; (CHECKSUM-COVERAGE) the checksum is the last field of a packed struct and the hashed array covers all bytes before it (go/types layout); (NO-PANIC-ON-INPUT) no explicit panic below readValidMeta; (FINALIZE) headers are finalized before they are written. Not decided: strength of FNV-32a, torn pages.",
+			"(VALIDATE-COMPLETE) Validate returns nil only after magic, version and checksum equality; (CHECKSUM-COVERAGE) the checksum is the last field of a packed struct and the hashed array covers all bytes before it (go/types layout); (NO-PANIC-ON-INPUT) no explicit panic below readValidMeta; (FINALIZE) headers are finalized before they are written. Not decided: strength of FNV-32a, torn pages. Added later (§8.7–8.9): TXID-COMPARE, exact hashed byte range, TRUNCATE-KEEPS-PREVIOUS.",
 		run: func(p *Program, rep *Report, tier string) {
 			g(rep, "VALIDATE", func() { ruleVALIDATE(p, rep) })
 			g(rep, "VALIDATE-COMPLETE", func() { ruleVALIDATECOMPLETE(p, rep) })
@@ -281,7 +281,7 @@ func init() {
 	})
 	register(&propertyDef{
 		id: "C17",
-		explain: "Decides the callback clause only: (PQTX) Settings.Flushed / Settings.ACKed and the counters behind them are only touched after Commit()==nil of the one flush/ACK transaction; (CALLBACK-ARG) the callback's argument is the event count taken before the transaction, not the counter after its reset. Pending/Active/Available arithmetic is not decided.",
+		explain: "Decides the callback clause only: (PQTX) Settings.Flushed / Settings.ACKed and the counters behind them are only touched after Commit()==nil of the one flush/ACK transaction; (CALLBACK-ARG) the callback's argument is the event count taken before the transaction, not the counter after its reset. Pending/Active/Available arithmetic is not decided. Added later (§8.7–8.9): COUNTER-SOURCES, EVENT-BOUNDARY, READ-START-AGREE; CALLBACK-ARG is location independent.",
 		run: func(p *Program, rep *Report, tier string) {
 			g(rep, "COUNTER-SOURCES", func() { ruleCOUNTERSOURCES(p, rep) })
 			g(rep, "READ-START-AGREE", func() { ruleREADSTARTAGREE(p, rep) })
@@ -292,7 +292,7 @@ func init() {
 	})
 	register(&propertyDef{
 		id: "C18",
-		explain: "Decides the path-lock protocol (LOCKS with the flock class at roots Open and File.Close): after vfs Lock succeeded every error exit of Open has released it (flag-guarded defers interpreted exactly), the lock-failed exit never held it, the success exit holds it; every exit of File.Close releases it; lock order flock < in-process locks. Not decided: flock(2) itself.",
+		explain: "Decides the path-lock protocol (LOCKS with the flock class at roots Open and File.Close): after vfs Lock succeeded every error exit of Open has released it (flag-guarded defers interpreted exactly), the lock-failed exit never held it, the success exit holds it; every exit of File.Close releases it; lock order flock < in-process locks. Not decided: flock(2) itself. Added later (§8.6–8.9): FLOCK-NO-UNLINK, FLOCK-QUIESCENT (unlock only in the quiescent section of Close), FLOCK-ACQUIRE (doLock keeps what it took).",
 		run: func(p *Program, rep *Report, tier string) {
 			g(rep, "LOCKS", func() { ruleLOCKS(p, rep, func(r lockRoot) bool { return r.name == "Open" || r.name == "File.Close" }, false) })
 			g(rep, "FLOCK-OWNER", func() { ruleFLOCKOWNER(p, rep) })
